@@ -162,22 +162,30 @@ func (e *Engine) Load(patterns []string) error {
 			e.indexPackage(sp)
 		}
 	}
-	// contract files
-	for _, p := range pkgs {
+	// contract files: of every loaded package (dependencies inside /repo included)
+	var cerr error
+	seenFile := map[string]bool{}
+	packages.Visit(pkgs, nil, func(p *packages.Package) {
 		for _, f := range p.GoFiles {
-			if filepath.Base(f) == "zz_verif_contracts.go" {
+			if filepath.Base(f) == "zz_verif_contracts.go" && !seenFile[f] {
+				seenFile[f] = true
 				var b []byte
 				if ov, ok := e.overlay[f]; ok {
 					b = ov
 				} else {
+					var err error
 					b, err = os.ReadFile(f)
 					if err != nil {
-						return err
+						cerr = err
+						return
 					}
 				}
 				e.cs.ParseContractText(f, p.PkgPath, string(b), false)
 			}
 		}
+	})
+	if cerr != nil {
+		return cerr
 	}
 	return nil
 }
@@ -254,6 +262,15 @@ func (e *Engine) globalFuncInit(g *ssa.Global) *ssa.Function {
 	}
 	if n == 1 {
 		return found
+	}
+	return nil
+}
+
+func (e *Engine) ssaPkg(path string) *ssa.Package {
+	for _, p := range e.prog.AllPackages() {
+		if p.Pkg.Path() == path {
+			return p
+		}
 	}
 	return nil
 }
